@@ -19,7 +19,7 @@ EXPLANATION = ('Decides for every value and every Serializer/Deserializer that g
                'mint conversions are copies (row-major mint matrices transposed).  Rejection of over-long sequences is performed by the format crate and is not decided here.')
 LEVEL_NOTE = 'Decides the glam side of the round trip; the format crates are outside the claim. Trusted: rustc MIR/layout, serde trait contracts.'
 
-CONFIGS_QUICK = ['interop', 'interop-scalar']
+CONFIGS_QUICK = ['interop', 'interop-scalar', 'interop-coresimd', 'interop-cuda']
 CONFIGS_THOROUGH = ['interop', 'interop-scalar', 'interop-coresimd', 'interop-cuda']
 SER_RE = re.compile(r"^features::impl_serde::.*<impl serde::Serialize for (.+)>::serialize$")
 VIS_RE = re.compile(r"^<features::impl_serde::.*<impl serde::Deserialize<'de> for (.+)>::deserialize::(\w+) as serde::de::Visitor<'de>>::visit_seq$")
